@@ -464,7 +464,8 @@ const (
 	srcShared  = "set p to pattern 'a' or 'ab'\nfind all p in 'b', '1' maybe p\nfind all at most 2 (p = x) x"
 	// statement-level operations on two literals, on a literal and a variable, in set / if / return / debug-free positions
 	srcSharedProc = "set lim to transform set n to 1 + 1 set m to 'x' + 'y' if 2 > 1 then set n to n * 1 end if matchLength >= 3 - 1 then return 'L' + n end return match + m end\n" +
-		"set p to pattern at least 1 'a' begin set k to 2 * 2 return matchLength < k - 1 end\nreplace all p with lim '.'\nfind all p 'b'"
+		"set p to pattern at least 1 'a' begin set k to 2 * 2 set j to k if matchLength > 9 then return false end end\n" +
+		"set q to pattern 'b' begin set u to 1 set w to 2 set z to 3 set y to u + w if y > z then debug 'y' end end\nreplace all p with lim '.'\nfind all p q"
 )
 
 const srcNestedLoops = "find all at least 1 (at least 1 (maybe 'a' at least 0 'b') 'c' at most 2 'd')"
@@ -508,10 +509,10 @@ func c19Scenarios() []scenario {
 		// The program is fresh in every execution (its first Run happens under the scheduler) and carries process code.
 		{name: "S9 Run || Run on a fresh program with a transform and a predicate", setup: sharedProc, threads: func(sh any) ([]func() string, func() []string) {
 			v := sh.(*libvore.Vore)
-			k0, _ := bytecodeKey(v)
+			k0, _ := bytecodeKeyCap(v)
 			obs := make([]string, 2)
 			return []func() string{func() string { obs[0] = runThread(v, "aab a")(); return "" }, func() string { obs[1] = runThread(v, "a aaa")(); return "" }}, func() []string {
-				k1, _ := bytecodeKey(v)
+				k1, _ := bytecodeKeyCap(v)
 				return []string{obs[0], obs[1], "shared-bytecode-unchanged=" + fmt.Sprint(k0 == k1)}
 			}
 		}},
@@ -560,21 +561,21 @@ func c19Scenarios() []scenario {
 		compileOnly("S8 Compile(lex error) || Compile(lex error) || Compile(lex error)", srcBadA, srcBadB, srcBadC),
 		{name: "S3 Compile || Run(shared program)", setup: shared, threads: func(sh any) ([]func() string, func() []string) {
 			v := sh.(*libvore.Vore)
-			k0, _ := bytecodeKey(v)
+			k0, _ := bytecodeKeyCap(v)
 			var cv *libvore.Vore
 			var ce error
 			obs := make([]string, 2)
 			return []func() string{compileThread(srcGroupsA, &cv, &ce), func() string { obs[1] = runThread(v, "ab1a")(); return "" }}, func() []string {
-				k1, _ := bytecodeKey(v)
+				k1, _ := bytecodeKeyCap(v)
 				return []string{compileObs(cv, ce), obs[1], "shared-bytecode-unchanged=" + fmt.Sprint(k0 == k1)}
 			}
 		}},
 		{name: "S4 Run || Run on the same program", setup: shared, threads: func(sh any) ([]func() string, func() []string) {
 			v := sh.(*libvore.Vore)
-			k0, _ := bytecodeKey(v)
+			k0, _ := bytecodeKeyCap(v)
 			obs := make([]string, 2)
 			return []func() string{func() string { obs[0] = runThread(v, "abab")(); return "" }, func() string { obs[1] = runThread(v, "a1a")(); return "" }}, func() []string {
-				k1, _ := bytecodeKey(v)
+				k1, _ := bytecodeKeyCap(v)
 				return []string{obs[0], obs[1], "shared-bytecode-unchanged=" + fmt.Sprint(k0 == k1)}
 			}
 		}},
